@@ -173,23 +173,76 @@ pub fn family(fam: usize, n: usize) -> (Vec<u8>, &'static str) {
             (p, "deep-ladder(rejected)")
         }
         7 => {
-            // one huge literal name (far beyond 255 bytes) and many 2-byte pointers to it:
-            // rejected at the 128th label by the policy; quadratic without the length cap
-            let labels = (n / 4).clamp(200, 8000);
-            let k = n.saturating_sub(12 + 2 * labels + 5) / 12;
-            let a = k.min(65535);
-            let mut p = hdr(0x8000, a, 0, 0);
-            for i in 0..labels {
-                p.push(1);
-                p.push(b'a' + (i % 26) as u8);
+            // one huge run of labels (far beyond 255 bytes) and many 2-byte pointers to it, either as the
+            // question name or hidden in TXT data and reached through pointers only: rejected by the
+            // length limit; quadratic if the limit is lifted (or not applied behind pointers)
+            let labels = (n / 4).clamp(200, 7000);
+            let k = n.saturating_sub(12 + 2 * labels + 30) / 12;
+            let a = k.min(65000);
+            if n % 2 == 0 {
+                let mut p = hdr(0x8000, a, 0, 0);
+                for i in 0..labels {
+                    p.push(1);
+                    p.push(b'a' + (i % 26) as u8);
+                }
+                p.push(0);
+                p.extend_from_slice(&[0, 1, 0, 1]);
+                for _ in 0..a {
+                    p.extend_from_slice(&ptr(12));
+                    p.extend_from_slice(&[0, 16, 0, 1, 0, 0, 0, 0, 0, 0]);
+                }
+                (p, "huge-name-many-pointers(rejected)")
+            } else {
+                let mut p = hdr(0x8000, a + 1, 0, 0);
+                p.extend_from_slice(&[1, b'q', 0, 0, 1, 0, 1]);
+                // TXT answer whose data holds the label run
+                p.extend_from_slice(&[0xc0, 12, 0, 16, 0, 1, 0, 0, 0, 0]);
+                p.extend_from_slice(&((2 * labels + 1) as u16).to_be_bytes());
+                let run = p.len();
+                for i in 0..labels {
+                    p.push(1);
+                    p.push(b'a' + (i % 26) as u8);
+                }
+                p.push(0);
+                for _ in 0..a {
+                    p.extend_from_slice(&ptr(run));
+                    p.extend_from_slice(&[0, 16, 0, 1, 0, 0, 0, 0, 0, 0]);
+                }
+                (p, "huge-name-many-pointers(rejected)")
             }
-            p.push(0);
-            p.extend_from_slice(&[0, 1, 0, 1]);
-            for _ in 0..a {
-                p.extend_from_slice(&ptr(12));
+        }
+        8 => {
+            // ladder hidden in TXT data mixing pure pointers and label+pointer rungs: blocks of 15 chained
+            // pointers followed by one rung "1 'a' ptr"; far more than 16 indirections per name, rejected
+            // by the policy, expensive if the pointer budget is ever refilled along the way
+            let blocks = (n / 200).clamp(2, 120);
+            let mut body: Vec<u8> = vec![];
+            let base = 12 + 7 + 12; // header + question + TXT record header
+            body.extend_from_slice(&[1, b'z', 0]);
+            let mut prev = base; // offset of the name "z."
+            for _ in 0..blocks {
+                for _ in 0..15 {
+                    let at = base + body.len();
+                    body.extend_from_slice(&ptr(prev));
+                    prev = at;
+                }
+                let at = base + body.len();
+                body.extend_from_slice(&[1, b'a']);
+                body.extend_from_slice(&ptr(prev));
+                prev = at;
+            }
+            let k = (n.saturating_sub(base + body.len()) / 12).min(65000);
+            let mut p = hdr(0x8000, k + 1, 0, 0);
+            p.extend_from_slice(&[1, b'q', 0, 0, 1, 0, 1]);
+            p.extend_from_slice(&[0xc0, 12, 0, 16, 0, 1, 0, 0, 0, 0]);
+            p.extend_from_slice(&(body.len() as u16).to_be_bytes());
+            debug_assert_eq!(p.len(), base);
+            p.extend_from_slice(&body);
+            for _ in 0..k {
+                p.extend_from_slice(&ptr(prev));
                 p.extend_from_slice(&[0, 16, 0, 1, 0, 0, 0, 0, 0, 0]);
             }
-            (p, "huge-name-many-pointers(rejected)")
+            (p, "mixed-ladder(rejected)")
         }
         _ => {
             // MX records: 2-byte preference + chained name
@@ -207,7 +260,7 @@ pub fn family(fam: usize, n: usize) -> (Vec<u8>, &'static str) {
     }
 }
 
-pub const NFAM: usize = 8;
+pub const NFAM: usize = 9;
 
 fn bound_check(bytes: &[u8], what: &str, st: &mut Stats) -> PResult {
     let (s, ok) = match steps_of(bytes) {
@@ -291,7 +344,7 @@ pub fn replay_c18(data: &[u8]) -> PResult {
 pub fn check_c18(ctx: &Ctx, known: &KnownFindings) -> Report {
     let mut rep = Report::new("C18");
     let ks = known_sigs(known, "C18");
-    rep.rule = format!("step counter (verif_hooks: one step per label/pointer followed, per record, per question, per EDNS option) across DNSSector::parse. Deterministic part: 6 adversarial families (16-pointer chains into a 255-byte name as owner / NS / SOA / MX names, maximal literal names, dense empty options) at sizes 64 .. 65535 .. 200000 (thorough: .. 1 MB), each accepted by the parser. Generated part: the C01 input stream and the families at drawn sizes with 1-3 damaged bytes. Oracle: steps <= {}*len + {} for every input, and per family ratio(len ~65535) <= 1.25*ratio(len ~4096) + 1 (no super-linear growth). Non-trivial: the parser executes >= len steps; distinct = hash of input.", SLOPE, CONST);
+    rep.rule = format!("step counter (verif_hooks: one step per label/pointer followed, per record, per question, per EDNS option) across DNSSector::parse. Deterministic part: 9 adversarial families (16-pointer chains into a 255-byte name as owner / NS / SOA / MX names, maximal literal names, dense empty options) at sizes 64 .. 65535 .. 200000 (thorough: .. 1 MB), each accepted by the parser. Generated part: the C01 input stream and the families at drawn sizes with 1-3 damaged bytes. Oracle: steps <= {}*len + {} for every input, and per family ratio(len ~65535) <= 1.25*ratio(len ~4096) + 1 (no super-linear growth). Non-trivial: the parser executes >= len steps; distinct = hash of input.", SLOPE, CONST);
     rep.assumptions = vec![
         "the counter measures the instrumented validator loops only (name walkers, option loop, per-record/per-question entry); an un-instrumented new loop would be invisible here".into(),
         "constant 32 derives from the policy: <= 16 pointers + <= 128 labels per name walk, densest legal packing two chained names per 14-byte NS record (~20.7 steps/byte)".into(),
